@@ -344,10 +344,16 @@ func init() {
 			p := genNetPlan(r, tier, "C09", false)
 			nf := r.Range(1, 4)
 			for i := 0; i < nf; i++ {
-				p.Faults = append(p.Faults, NetFault{At: r.Range(1, 40), Kind: Pick(r, []string{"truncate", "flip", "flip", "404"}), Arg: r.Range(0, 5000)})
+				p.Faults = append(p.Faults, NetFault{At: r.Range(1, 40), Kind: Pick(r, []string{"truncate", "flip", "flip", "404", "hostile-json"}), Arg: r.Range(0, 5000)})
 			}
 			if r.Chance(0.5) {
 				appendAllBlock(r, &p, []string{"404", "404", "truncate", "flip"})
+			}
+			if r.Chance(0.35) {
+				// a reply that is valid JSON but not what the API promises, during a negotiation that needs several round trips
+				b := Pick(r, netBranches)
+				p.Ops = append(p.Ops, NetOp{Node: "R", Op: "commit", Branch: b, Variant: r.Intn(6)},
+					NetOp{Node: Pick(r, []string{"L", "L2"}), Op: Pick(r, []string{"fetch", "pull", "push"}), Branch: b, ReqFault: &NetFault{At: r.Range(1, 4), Kind: "hostile-json", Arg: r.Intn(1000)}})
 			}
 			if r.Chance(0.15) {
 				// a remote that answers a fetch with well-formed but empty packfiles, for ever
